@@ -61,9 +61,10 @@ func main() {
 	res := flag.String("results", "", "per-case result lines")
 	shard := flag.Int("shard", 0, "shard index")
 	shards := flag.Int("shards", 1, "number of shards")
-	proto := flag.String("proto", "http1", "http1 | bolt | boltoneway (downstream and upstream protocol of the listener under test)")
+	proto := flag.String("proto", "http1", "http1 | http2 | bolt | boltoneway (downstream and upstream protocol of the listener under test)")
 	flag.Parse()
-	isBolt := *proto != "http1"
+	isBolt := *proto == "bolt" || *proto == "boltoneway"
+	isH2 := *proto == "http2"
 	if isBolt {
 		e2e.RegisterBolt()
 	}
@@ -80,6 +81,10 @@ func main() {
 		bu := e2e.NewBoltUpstream("u1", reg)
 		defer bu.Close()
 		upAddr = bu.Addr
+	} else if isH2 {
+		hu := e2e.NewH2Upstream("u1", reg)
+		defer hu.Close()
+		upAddr = hu.Addr
 	} else {
 		hu := e2e.NewHTTPUpstream("u1", reg)
 		defer hu.Close()
@@ -107,6 +112,9 @@ func main() {
 	ls := e2e.ListenerSpec{Name: "c03", Addr: laddr, Downstream: "Http1", Upstream: "Http1", Routes: routes}
 	if isBolt {
 		ls.Downstream, ls.Upstream, ls.SubProto = "X", "X", "bolt"
+	}
+	if isH2 {
+		ls.Downstream, ls.Upstream = "Http2", "Http2"
 	}
 	lst := e2e.BuildListener(ls)
 	m := e2e.StartMosn(e2e.BuildConfig([]v2.Listener{lst}, clusters, e2e.ScratchLog(tmp)))
@@ -226,6 +234,11 @@ func main() {
 			}
 			vh.Must(bc.Send(oneway, globalMs, bh, tok), "send")
 			cl = bc
+		} else if isH2 {
+			hc, err := e2e.DialH2(laddr)
+			vh.Must(err, "dial proxy")
+			vh.Must(hc.Send("GET", "/"+c.Cluster+"/x?tok="+tok, hdr, ""), "send")
+			cl = hc
 		} else {
 			hc, err := e2e.DialHTTP(laddr)
 			vh.Must(err, "dial proxy")
